@@ -196,6 +196,43 @@ def main(tier, seed):
                      if r is None else "an ill-typed value was stored", {"stored": bad[:3]})
                 db = fresh(csv)
                 handle = db.measurement("m")
+        # callables whose k-th result is the ill-typed one, after k-1 valid results (fresh mappings, or ONE mapping object refilled and handed
+        # back every time): validation must not depend on what was validated before
+        for slot, good, ill in (("fields", lambda i: {"g": float(i)}, {"g": "str"}), ("tags", lambda i: {"g": str(i)}, {"g": 7}),
+                                ("fields", lambda i: {"g": i}, {"g": True}), ("tags", lambda i: {"g": None}, {5: "x"})):
+            for reuse in (False, True):
+                for kbad in (1, 2, 4, 5, 7):
+                    if csv:
+                        db.close()
+                    db = fresh(csv)
+                    handle = db.measurement("m")
+                    db.insert_multiple([tf.Point(time=T0 + timedelta(seconds=10 + i), measurement="m", tags={"a": "z"}, fields={"f": float(i)}) for i in range(6)])
+                    before = [M.canon_point(x) for x in db.all(sorted=False)]
+                    state = {"n": 0, "d": {}}
+
+                    def fn(old, _s=state, _good=good, _ill=ill, _k=kbad, _reuse=reuse):
+                        _s["n"] += 1
+                        res = dict(_ill) if _s["n"] == _k else _good(_s["n"])
+                        if not _reuse:
+                            return res
+                        _s["d"].clear()
+                        _s["d"].update(res)
+                        return _s["d"]
+                    for name, call in (("db.update_all", lambda: db.update_all(**{slot: fn})), ("measurement.update", lambda: handle.update(q_all, **{slot: fn}))):
+                        state["n"] = 0
+                        r = raises(call)
+                        n_checks += 1
+                        bad = stored_ok(tf, db)
+                        after = [M.canon_point(x) for x in db.all(sorted=False)]
+                        desc = f"{slot}=callable whose result no. {kbad} is {ill!r} ({'one mapping object refilled' if reuse else 'a fresh mapping'} per call)"
+                        if bad:
+                            note(name, desc, "an ill-typed value was stored", {"stored": bad[:3]})
+                        elif r is None:
+                            note(name, desc, "the ill-typed result of a callable was accepted")
+                        elif after != before:
+                            note(name, desc, "a rejected update changed the stored contents")
+                        if bad or r is None or after != before:
+                            break
         if csv:
             db.close()
     # tie: the model's checks give the same verdicts
